@@ -208,6 +208,7 @@ func runC08(r *core.Run) int {
 		var pc *patCase
 		if i%4 == 3 {
 			pc = makePattern(i, rng, [3]int{1, 0, 2}, 10)
+			noteCtx(l, pc)
 		} else {
 			opts := randomOpts(rng, 10)
 			g := gen.NewG(rng, captureProfile(rng))
